@@ -78,7 +78,7 @@ rv = os.path.join(R, "seeded", "REVERSE.log")
 if os.path.exists(rv):
     out += [l.rstrip() for l in open(rv) if l.startswith(("CAUGHT", "MISSED", "SKIP"))]
 out += ["```", "", "### 8.3 Benign variants (must stay silent)", "",
-"`tools/benign_all.sh` applies each patch under `mutants/benign/` and runs all twenty checks: reworded error messages; call depth limit 3000, evaluation nesting 30000 and array fill limit 1 500 000 (all inside the bands); object keys printed and iterated in reverse-sorted instead of sorted order.",
+"`tools/benign_all.sh` applies each patch under `mutants/benign/` and runs all twenty checks: reworded error messages; call depth limit 3000, evaluation nesting 30000 and array fill limit 1 500 000 (all inside the bands); object keys printed and iterated in reverse-sorted instead of sorted order; print assembling its line and writing it once, slices.Sort for the keys; a regex cache keyed by pattern text and padding that grows the array once.",
 "", "```"]
 bn = os.path.join(R, "seeded", "BENIGN.log")
 if os.path.exists(bn):
